@@ -860,6 +860,9 @@ func (E *Engine) instrWrites(enc *FnEnc, in ssa.Instruction, w map[string]bool) 
 }
 
 func (E *Engine) callWrites(c *ssa.CallCommon, w map[string]bool) {
+	if !E.effectsDone {
+		E.computeWriteSets()
+	}
 	if b, ok := c.Value.(*ssa.Builtin); ok {
 		switch b.Name() {
 		case "append", "copy":
